@@ -59,6 +59,12 @@ class AdjHooks(AutogradModel, Hooks):
             return [nf.linear(f"column{k}", (), Rat.lift(recv)) for k in range(N_COLS)]
         if name == "sum" and not args and not kwargs:
             return nf.linear("sum_all", (), Rat.lift(recv))
+        if name == "size" and not args and not kwargs:
+            return ("shape-of", Rat.lift(recv).key())
+        if name in ("reshape", "view", "reshape_as", "view_as") and args and (
+                isinstance(args[0], Rat) or (isinstance(args[0], tuple) and args[0] and args[0][0] == "shape-of")):
+            # re-shaping to the shape of another tensor of the scenario moves no value (scalar noise: (B, d, 1) <-> (B, d))
+            return recv
         return NotImplemented
 
     def external_call(self, interp, dotted, args, kwargs, node, fi):
